@@ -1401,13 +1401,15 @@ UNI_FILES = {"uni_move_full_sync": ("src/uni/channels/movable/full_sync.rs", "Fu
              "uni_move_atomic": ("src/uni/channels/movable/atomic.rs", "Atomic", "AtomicMove")}
 
 
-def uni_channel_world(ctx, chan, N, MS, k, registered):
-    """channel with ONE stream (id 0, task 0); `registered`: the stream has parked before (its waker sits in the wakers array)"""
+def uni_channel_world(ctx, chan, N, MS, k, registered, nstreams=1):
+    """channel with `nstreams` streams (ids 0.., task i polls stream i); `registered`: the streams have parked before (their wakers sit in the wakers array)"""
     cfile, cstruct, ring = UNI_FILES[chan]
     consts = {"BUFFER_SIZE": N, "MAX_STREAMS": MS}
     types = {"SlotType": "u32", "ItemType": "u32", "DerivedItemType": "u32", "ChannelConsumerType": "@" + cfile}
     w = World(ctx.index, ctx.type_files, consts, types)
     origin = w.sym("origin")
+    fixed = os.environ.get("VERIF_M_ORIGIN")
+    if fixed is not None: w.inputs["origin"] = origin = BV(32, int(fixed, 0))
     pre = [w.sym("pre%d" % i) for i in range(k)]
     cf = {nm: i for i, nm in enumerate(layout.struct_fields(cfile, cstruct))}
     ring_field = "channel" if "channel" in cf else "container"
@@ -1415,14 +1417,16 @@ def uni_channel_world(ctx, chan, N, MS, k, registered):
     else: w.full_sync_move("ch", (cf[ring_field], "*"), N, origin, pre)
     sf = {nm: i for i, nm in enumerate(w.fields("StreamsManagerBase"))}
     sm = (cf["streams_manager"],)
-    w.decl("ch", sm + (sf["wakers"], "*"), "array", z3.BitVecSort(8), [BV(8, 1 if (registered and j == 0) else 0) for j in range(MS)], n=MS)
+    w.decl("ch", sm + (sf["wakers"], "*"), "array", z3.BitVecSort(8), [BV(8, (j + 1) if (registered and j < nstreams) else 0) for j in range(MS)], n=MS)
     w.mem[("ch", sm + (sf["wakers"], "*"))]["codec"] = "opt_waker"
     w.decl("ch", sm + (sf["wakers_lock"],), "atomic", z3.BoolSort(), z3.BoolVal(False))
-    w.decl("ch", sm + (sf["keep_streams_running"], "*"), "array", z3.BoolSort(), [z3.BoolVal(j == 0) for j in range(MS)], n=MS)
+    w.decl("ch", sm + (sf["keep_streams_running"], "*"), "array", z3.BoolSort(), [z3.BoolVal(j < nstreams) for j in range(MS)], n=MS)
+    w.decl("ch", sm + (sf["used_streams"], "*"), "array", z3.BitVecSort(32), [BV(32, j if j < nstreams else 0xFFFFFFFF) for j in range(MS)], n=MS)
     # the stream object (private to the consumer task)
     mf = {nm: i for i, nm in enumerate(layout.struct_fields("src/mutiny_stream.rs", "MutinyStream"))}
-    w.decl("st0", (mf["stream_id"],), "frozen", None, value=BV(32, 0))
-    w.decl("st0", (mf["events_source"],), "frozen", None, value=Ptr("ch"))
+    for i in range(nstreams):
+        w.decl("st%d" % i, (mf["stream_id"],), "frozen", None, value=BV(32, i))
+        w.decl("st%d" % i, (mf["events_source"],), "frozen", None, value=Ptr("ch"))
     ring_base = (cf[ring_field],) if ring == "AtomicMove" else (cf[ring_field], "*")
     return w, Ptr("ch"), pre, cfile, ring, ring_base
 
@@ -1472,9 +1476,10 @@ def wake_query(ctx, name, chan, N, MS, k, producers, registered, timeout_s, slac
         def symptom(h):
             if h["panics"]: return "panic: " + h["panics"][0]
             fin = [e for e in h["events"] if e["op"] == "quiescent"]
-            if fin and fin[-1]["res"][:1] == ["lost"]: return "lost wake-up: producers returned, the stream is parked and was not woken, %s accepted event(s) pending" % fin[-1]["res"][1]
+            if fin and fin[-1]["res"][:1] == ["parked"] and int(fin[-1]["res"][1]) > 0:
+                return "lost wake-up: producers returned, the stream's task (%s) is parked and was not woken, %s accepted event(s) pending" % (fin[-1]["res"][2], fin[-1]["res"][1])
             return None
-        kind = {"uni_move_full_sync": "StreamUniFullSync", "uni_move_atomic": "StreamUniAtomic"}[chan] + ("Parked" if registered else "Fresh")
+        kind = {"uni_move_full_sync": "StreamUniFullSync", "uni_move_atomic": "StreamUniAtomic"}[chan] + ("Parked" if registered else "Fresh") + ":%d:1" % MS
         found, why, tried = replay.search(kind, N, [inp["origin"]], prefill_vals, progs, [], segs, symptom, max_runs=250)
         rec["native_runs"] = tried
         if found: rec.update(verdict="violation", symptom=found["symptom"], replayed=True, native_history=found["history"].get("events", []), native_segments=found["segments"])
@@ -1502,4 +1507,87 @@ def _c05_registry(add, tier, TO):
     q("c05_arc_fullsync_last_two_drops", "thorough", "FullSyncMove", 2, [["read", "drop"], ["drop"]])
 
 
-EXTRA_REGISTRIES = [("C13", _c13_registry), ("C14", _c14_registry), ("C08", _c08_registry), ("C18", _c18_registry), ("C19", _c19_registry), ("C16", _c16_registry), ("C04", _c04_registry), ("C05", _c05_registry)]
+# =========================================================================================================
+# C07: cancel / end terminates exactly the targeted streams, even parked ones
+def cancel_query(ctx, name, chan, N, MS, nstreams, k, cancel, producers, registered, timeout_s, slack=2):
+    """`nstreams` streams (ids 0..nstreams-1, task i drives stream i like an executor); thread programs:
+       cancel = ('all',) -> <channel>::cancel_all_streams()   |   ('one', id) -> StreamsManagerBase::cancel_stream(id)
+       producers: list of programs over {'send'} (concurrent with the cancel request)
+    Violation: the canceller (and all producers) returned, yet a TARGETED stream's task is parked and un-woken (it will never answer
+    end-of-stream); or a panic / invalid access. Targeted tasks that return have answered `None` (drive() returns only then)."""
+    w, ch, pre, cfile, ring, ring_base = uni_channel_world(ctx, chan, N, MS, k, registered, nstreams=nstreams)
+    it = w.interp()
+    f_send = ctx.index.method("send", cfile)
+    graphs = []; vals = []
+    cf = {nm: i for i, nm in enumerate(layout.struct_fields(cfile, UNI_FILES[chan][1]))}
+    if cancel[0] == "all":
+        graphs.append(build_thread(it, 0, [(ctx.index.method("cancel_all_streams", cfile), [ch], "cancel_all")], w.mem)); targeted = list(range(nstreams))
+    else:
+        graphs.append(build_thread(it, 0, [(fn_of(w, "StreamsManagerBase", "cancel_stream"), [Ptr("ch", (cf["streams_manager"],)), BV(32, cancel[1])], "cancel_stream")], w.mem)); targeted = [cancel[1]]
+    for t, prog in enumerate(producers):
+        calls = []
+        for j, op in enumerate(prog):
+            v = w.sym("v%d_%d" % (t, j)); vals.append(v); calls.append((f_send, [ch, v], "send"))
+        graphs.append(build_thread(it, 1 + t, calls, w.mem))
+    P = 1 + len(producers)
+    for i in range(nstreams):
+        cx = Agg("Context", [Agg("Waker", [BV(8, i)])])
+        graphs.append(build_thread(it, P + i, [(ctx.helper("drive"), [Ptr("st%d" % i), cx], "drive")], w.mem))
+    cons_budget = 6 * (len(vals) + k) + 18
+    S = sum(g.step_budget() for g in graphs[:P]) + cons_budget * nstreams + slack
+    b = BMC(graphs, w.mem, S, {"tasks": nstreams, "woken_init": {i: bool(registered and k > 0) for i in range(nstreams)}})
+    S = b.S
+    others_done = z3.And([b.is_kind(t, S, "done") for t in range(P)])
+    hung = z3.Or([z3.And(others_done, b.parked(P + i, S)) for i in targeted])
+    # untargeted streams must not be ended by the request (their task returns only on end-of-stream)
+    wrongly_ended = z3.Or([b.is_kind(P + i, S, "done") for i in range(nstreams) if i not in targeted] + [z3.BoolVal(False)])
+    meta = {"threads": ["0:%s" % ("cancel_all_streams" if cancel[0] == "all" else "cancel_stream(%d)" % cancel[1])] + ["%d:%s" % (i + 1, "+".join(p)) for i, p in enumerate(producers)]
+                       + ["%d:executor task of stream %d: poll_next / park when Pending / re-poll when woken / return on end-of-stream" % (P + i, i) for i in range(nstreams)],
+            "oracle": "once the cancel request (and every send) has returned no targeted stream is left parked without a pending wake-up: each answers end-of-stream; untargeted streams are not ended; no panic / invalid access",
+            "bounds": "%s<u32,%d,%d>, %d stream(s) (%s), pre-filled %d, origin any u32, steps<=%d" % (chan, N, MS, nstreams, "parked before: wakers registered" if registered else "never polled before", k, S)}
+    violation = [z3.Or(hung, wrongly_ended, b.any_panic(), b.err[S])]
+    witness = [others_done] + [b.is_kind(P + i, S, "done") for i in targeted]
+    meta["functions"] = sorted(set(x.split(">::")[-1] + " @" + (re.search(r"impl at (src/[^:]*)", x).group(1) if "impl at" in x else "") for x in it.functions_used))
+    meta["intrinsics"] = sorted(it.intrinsics_used)
+    rec, model = solve(name, b, violation, witness, timeout_s, ctx.workdir, meta)
+    if model is not None:
+        import replay
+        rec["trace"] = b.decode_schedule(model)
+        inp = {nm: model.eval(v, model_completion=True).as_long() for nm, v in w.inputs.items()}
+        rec["inputs"] = inp
+        rec["model_final"] = {"hung": str(model.eval(hung, model_completion=True)), "wrongly_ended": str(model.eval(wrongly_ended, model_completion=True)),
+                              "err": str(model.eval(b.err[S], model_completion=True))}
+        progs = [["cancel_all" if cancel[0] == "all" else "cancel:%d" % cancel[1]]]
+        progs += [["send:%d" % inp["v%d_%d" % (t, j)] for j in range(len(prog))] for t, prog in enumerate(producers)]
+        progs += [["drive:%d" % i] for i in range(nstreams)]
+        prefill_vals = [inp["pre%d" % i] for i in range(k)]
+        segs = replay.segments_from_trace(rec["trace"])
+        def symptom(h):
+            if h["panics"]: return "panic: " + h["panics"][0]
+            fin = [e for e in h["events"] if e["op"] == "quiescent"]
+            if fin and fin[-1]["res"][:1] == ["parked"]:
+                hung_ = [x for x in fin[-1]["res"][2].split(",") if x.isdigit() and int(x) in targeted]
+                if hung_: return "cancelled stream(s) %s never answer end-of-stream: the cancel request returned, the task is parked and was not woken" % ",".join(hung_)
+            return None
+        kind = {"uni_move_full_sync": "StreamUniFullSync", "uni_move_atomic": "StreamUniAtomic"}[chan] + ("Parked" if registered else "Fresh") + ":%d:%d" % (MS, nstreams)
+        found, why, tried = replay.search(kind, N, [inp["origin"]], prefill_vals, progs, [], segs, symptom, max_runs=250)
+        rec["native_runs"] = tried
+        if found: rec.update(verdict="violation", symptom=found["symptom"], replayed=True, native_history=found["history"].get("events", []), native_segments=found["segments"])
+        else: rec.update(verdict="inconclusive", why="model counterexample (%s) did not reproduce natively: %s" % (rec["model_final"], why))
+    return rec
+
+
+def _c07_registry(add, tier, TO):
+    def q(name, qtier, chan, N, MS, nstreams, k, cancel, producers, registered, slack=2):
+        add("C07", name, qtier, lambda ctx: cancel_query(ctx, name, chan, N, MS, nstreams, k, cancel, producers, registered, TO, slack))
+    q("c07_atomic_cancel_all_vs_first_poll", "quick", "uni_move_atomic", 2, 1, 1, 0, ("all",), [], False)
+    q("c07_atomic_cancel_all_vs_parked_k1", "quick", "uni_move_atomic", 2, 1, 1, 1, ("all",), [], True)
+    q("c07_full_sync_cancel_all_vs_first_poll", "quick", "uni_move_full_sync", 2, 1, 1, 0, ("all",), [], False)
+    q("c07_atomic_cancel_one_of_two", "quick", "uni_move_atomic", 2, 2, 2, 0, ("one", 1), [], False)
+    q("c07_atomic_cancel_all_vs_send", "quick", "uni_move_atomic", 2, 1, 1, 0, ("all",), [["send"]], False)
+    q("c07_atomic_cancel_all_two_streams", "thorough", "uni_move_atomic", 2, 2, 2, 1, ("all",), [], False)
+    q("c07_full_sync_cancel_all_vs_send_parked", "thorough", "uni_move_full_sync", 2, 1, 1, 0, ("all",), [["send"]], True)
+    q("c07_full_sync_cancel_one_of_two_parked", "thorough", "uni_move_full_sync", 2, 2, 2, 0, ("one", 0), [], True)
+
+
+EXTRA_REGISTRIES = [("C13", _c13_registry), ("C14", _c14_registry), ("C08", _c08_registry), ("C18", _c18_registry), ("C19", _c19_registry), ("C16", _c16_registry), ("C04", _c04_registry), ("C05", _c05_registry), ("C07", _c07_registry)]
